@@ -6,8 +6,9 @@
   Unbounded `Int`/`Nat`; saturating operations are modelled (`satAddU32`, `Nat` subtraction,
   `satAddI32`/`satAsI32` inside `Rect.rowsEnd`/`columnsEnd`), plain `+ - *` are mathematical.
   `u32 as i32` casts of corner-box sizes are modelled as the plain value (after `confine` a radius is
-  at most a side of the rectangle). `confine` computes its products in `u64` (no overflow for `u32`
-  operands); the `as u32` of the scaled length does not truncate because `size < corner_size`.
+  at most a side of the rectangle). `confine` computes its sums in `u64`, its cross products in `u128`
+  (no overflow for `u32` operands); the `as u32` of the scaled length does not truncate because
+  `size < corner_size`.
   The `EllipseContains` arithmetic is `u32` in the code (being widened under C08): unbounded here.
 -/
 import EG.Model.StyledScanline
@@ -32,13 +33,14 @@ namespace CornerRadii
 /-- `CornerRadii::new(radius)` -/
 def new (r : Sz) : CornerRadii := ⟨r, r, r, r⟩
 
-/-- The `sides` array of `confine`: `(side length, saturating sum of the two radii along it)` for
-top, right, bottom, left. -/
+/-- The `sides` array of `confine`: `(side length, sum of the two radii along it)` for top, right,
+bottom, left. The sums are `u64` in the code (`u64::from(a) + u64::from(b)`, exact for `u32`
+radii), the cross products of the loop `u128`, the scaling `u64`: no clamp, no overflow. -/
 def sides (c : CornerRadii) (bb : Sz) : List (Nat × Nat) :=
-  [ (bb.w, satAddU32 c.tl.w c.tr.w),
-    (bb.h, satAddU32 c.tr.h c.br.h),
-    (bb.w, satAddU32 c.bl.w c.br.w),
-    (bb.h, satAddU32 c.tl.h c.bl.h) ]
+  [ (bb.w, c.tl.w + c.tr.w),
+    (bb.h, c.tr.h + c.br.h),
+    (bb.w, c.bl.w + c.br.w),
+    (bb.h, c.tl.h + c.bl.h) ]
 
 /-- Body of the `for` loop: `acc = (size, corner_size)`;
 `if side_size * corner_size < size * side_corner_size { (size, corner_size) = side }`. -/
